@@ -29,7 +29,14 @@ func judgeC01(p *rm.Parsed, mq rm.Request, r rm.Router, o rs.Outcome, lg *rs.Log
 	if decl.Method != mq.Method {
 		return fmt.Sprintf("route #%d has method %s but the request method is %s", inv.ID, decl.Method, mq.Method)
 	}
-	if ok, _ := rm.PathMatches(p.Full[si][ri], mq.Path, r); !ok {
+	admitted := false
+	for _, reading := range r.Readings() { // base reading first, then the lenient ones (undecided points)
+		if ok, _ := rm.PathMatches(p.Full[si][ri], mq.Path, reading); ok {
+			admitted = true
+			break
+		}
+	}
+	if !admitted {
 		return fmt.Sprintf("route #%d template %q does not admit path %q", inv.ID, p.FullTemplate(si, ri), mq.Path)
 	}
 	if !rm.ConsumesAdmits(decl, mq.CT) {
